@@ -36,6 +36,8 @@ def _gen_case_a(seed: int, tier: str, index: int) -> Dict[str, Any]:
               "active": {"DISCOVERY_INITIAL_TIMEOUT_IN_SECONDS": initial, "DISCOVERY_TIMEOUT_IN_SECONDS": timeout}}
     net: Dict[str, Any] = {"lat_min": 0.001, "lat_max": 0.01}
     loop_cfg: Dict[str, Any] = {"cost_small_p": 0.2, "cost_small_max": 0.004}
+    if rng.random() < 0.25:
+        loop_cfg.update(wall_jump_p=0.01, wall_jump_max=rng.choice([2.0, 3600.0]))      # the wall clock steps; monotonic time does not
     nresp = rng.choice([0, 1, 1, 2, 3, 4, 6]) if profile != "none" else rng.choice([0, 0, 1])
     if profile == "lossy":
         net["loss"] = rng.choice([0.2, 0.5, 0.8])
@@ -170,8 +172,16 @@ async def scenario(world: WorldA) -> None:
         n_ep = len(world.loop.transports)
         S = world.now()
         stall0 = world.clock.stall_total_ns
+        # a discovery that never returns is a verdict (overran its timeout), not a run that hits the simulator's caps
+        dtask = asyncio.ensure_future(locator.discover())
+        dtask.set_name("HARNESS:discover")
+        done, _ = await asyncio.wait([dtask], timeout=3 * cfg["timeout"] + 30.0)
+        if not done:
+            dtask.cancel()
+            world.violate(PROP, "overran-timeout", f"discover() had not returned {world.now() - S:.1f}s after it was called, discovery timeout "
+                          f"{cfg['timeout']}s (round={ri} filter={f} kw={kw})", sig="overran-timeout:never-returned")
         try:
-            await locator.discover()
+            dtask.result()
         except asyncio.CancelledError:
             raise
         except Exception as e:
